@@ -7,6 +7,7 @@ import (
 	"strconv"
 	"strings"
 	"sync"
+	"sync/atomic"
 
 	"github.com/MichaelMure/git-bug/repository"
 	"github.com/MichaelMure/git-bug/util/lamport"
@@ -87,7 +88,7 @@ func c05ConcurrentClock(r *mon.Run) {
 // the clock is at least v: "dominates everything seen". Runs on the persisted clock of a go-git repository and on the
 // in-memory repository.
 func c05ConcurrentWitness(r *mon.Run) {
-	rounds := r.Pick(4000, 40000)
+	rounds := r.Pick(200000, 2000000)
 	dir := world.ScratchDir("c05-wit-")
 	defer os.RemoveAll(dir)
 	rep, err := world.InitRepo(filepath.Join(dir, "r"), false)
@@ -109,52 +110,58 @@ func c05ConcurrentWitness(r *mon.Run) {
 			r.Inconclusive("concurrent witness: " + err.Error())
 			return
 		}
-		overlaps := 0
-		for round := 0; round < rounds; round++ {
-			clocks, _ := tgt.repo.AllClocks()
-			cur := uint64(clocks["bugs-edit"].Time())
-			want := cur + 50
-			var wg sync.WaitGroup
-			start := make(chan struct{})
-			incs := make([]uint64, 3)
-			for w := range incs {
-				wg.Add(1)
-				go func(w int) {
-					defer wg.Done()
-					<-start
-					if t, err := tgt.repo.Increment("bugs-edit"); err == nil {
-						incs[w] = uint64(t)
-					}
-				}(w)
-			}
-			var werr error
+		// incrementers run flat out while one goroutine witnesses values a little ahead of the clock, over and over
+		perWorker := rounds
+		if tgt.name == "persisted" {
+			perWorker = rounds / 8 // every call rewrites the clock file
+		}
+		var wg sync.WaitGroup
+		var stop atomic.Bool
+		for w := 0; w < 3; w++ {
 			wg.Add(1)
 			go func() {
 				defer wg.Done()
-				<-start
-				werr = tgt.repo.Witness("bugs-edit", lamport.Time(want))
+				for k := 0; k < perWorker && !stop.Load(); k++ {
+					_, _ = tgt.repo.Increment("bugs-edit")
+				}
 			}()
-			close(start)
-			wg.Wait()
+		}
+		witnessed, overlaps := 0, 0
+		var bad string
+		done := make(chan struct{})
+		go func() { wg.Wait(); close(done) }()
+	loop:
+		for {
+			select {
+			case <-done:
+				break loop
+			default:
+			}
+			clocks, _ := tgt.repo.AllClocks()
+			before := uint64(clocks["bugs-edit"].Time())
+			want := before + 3
+			if err := tgt.repo.Witness("bugs-edit", lamport.Time(want)); err != nil {
+				continue
+			}
 			clocks, _ = tgt.repo.AllClocks()
 			after := uint64(clocks["bugs-edit"].Time())
-			// an increment that ran before the witness returned a value <= want
-			for _, v := range incs {
-				if v != 0 && v <= want {
-					overlaps++
-					break
-				}
+			witnessed++
+			if after > want {
+				overlaps++ // increments ran around the witness
 			}
-			r.Count("concurrent_witness_rounds/"+tgt.name, 1)
-			if werr == nil && after < want {
-				r.Violation("concurrent-witness:clock-below-witnessed-value:"+tgt.name,
-					fmt.Sprintf("round %d (%s clock): Witness(%d) returned without error while increments ran (they obtained %v); the clock then stands at %d, below the witnessed value", round, tgt.name, want, incs, after),
-					map[string]any{"kind": "concurrent-witness", "round": round, "target": tgt.name})
+			if after < want {
+				bad = fmt.Sprintf("%s clock: Witness(%d) returned without error while other goroutines were incrementing; the clock then stands at %d, below the witnessed value (it read %d before)", tgt.name, want, after, before)
+				stop.Store(true)
 				break
 			}
 		}
+		<-done
+		r.Count("concurrent_witness_calls/"+tgt.name, witnessed)
+		if bad != "" {
+			r.Violation("concurrent-witness:clock-below-witnessed-value:"+tgt.name, bad, map[string]any{"kind": "concurrent-witness", "target": tgt.name})
+		}
 		r.Case("concurrent-witness/"+tgt.name, true)
-		r.Count("concurrent_witness_rounds_with_an_increment_before_the_witness/"+tgt.name, overlaps)
+		r.Count("concurrent_witness_calls_with_increments_around/"+tgt.name, overlaps)
 	}
 }
 
